@@ -4,6 +4,8 @@ import MalVerif.Py.TieLangTypeDecl
 import MalVerif.Py.TieLangGraph
 import MalVerif.Py.TieLangTypeHelpers
 import MalVerif.Py.TieLangTypeSteps
+import MalVerif.Py.TieLangTypeFinal
+import MalVerif.Py.TieLangTypeBuild
 /-!
 # Wrapper domain: the language-graph half of `evalEnvOf = genEnvOf`
 
@@ -409,5 +411,109 @@ example : attacksOf (lgOfLang MalVerif.C03.exLang).spec "G" =
   rw [this]
   show ((absLang (loadPy MalVerif.C03.exLang)).foldSteps "G").map _ = _
   rw [absLang_loadPy _ (by decide)]
+
+/-! ## 6b. `LangOK` holds of whatever the GENERATED `_generate_graph` returns -/
+
+theorem reqAll_runLookups {P : PyExpr → Prop} (qs : List String) (s : LS) (h : ReqAll P s)
+    (r : LS × List TieLang.Dict) (hr : TieLang.runLookups s qs = .ok r) : ReqAll P r.1 := by
+  induction qs generalizing s r with
+  | nil => simp only [TieLang.runLookups] at hr; cases hr; exact h
+  | cons t ts ih =>
+    simp only [TieLang.runLookups] at hr
+    split at hr
+    · cases hr
+    · next r1 h1 =>
+      split at hr
+      · cases hr
+      · next rest h2 =>
+        cases hr
+        exact ih _ (reqAll_lookup s t h r1 h1) rest h2
+
+/-- **the language graph `LanguageGraph(spec)` builds satisfies `LangOK`**: for every well-formed specification heap
+(`SpecOK`, and the `requires` lists hold encoded expressions) with an acyclic `extends` and every recursion limit, if
+the translated `_generate_graph` returns, the heap it returns satisfies the hypotheses of this file -/
+theorem langOK_of_build (spec : LS) (R : Nat) (hok : SpecOK spec) (hreq : ReqAll ExprWF spec)
+    (hac : LG.Acyclic (absLang spec)) (s6 : Py.LType.TH) (hr : runBuildH spec R = .ok s6) : LangOK s6 := by
+  rw [runBuildH_eq] at hr
+  obtain ⟨h1, h2, _⟩ := firstFive_spec spec R hok hac
+  obtain ⟨_, _, h3⟩ := first_three spec R hok
+  cases hs : LG.supersOk (absLang spec) with
+  | false => rw [h1 hs] at hr; cases hr
+  | true =>
+    cases he : endsOk (absLang spec) with
+    | false => rw [h2 hs he] at hr; cases hr
+    | true =>
+      obtain ⟨s2, e2, a2⟩ := h3 hs he
+      have hdecl : ∀ (s' : Py.LType.TH) (t : String), s'.spec = spec →
+          ∃ l : List PyAssocD, Py.GenLangType.lg__get_associations_for_asset_type (pyFuelL s'.spec) s' t = .ok l ∧
+            l.map absAssoc = LG.declaredFor (absLang spec) t ∧ ∀ d ∈ l, d ∈ spec.associations := by
+        intro s' t hs'
+        have := get_associations_declaredFor s' t (by rw [hs']; exact hac)
+        rw [hs'] at this
+        rw [hs']
+        exact this
+      obtain ⟨nodes, s4, _, e4, a4⟩ := phaseAssocs_spec spec R hok hac s2 a2 he hdecl
+      obtain ⟨s5, e5, a5⟩ := phaseSteps_spec spec R nodes hok hac s4 a4
+      obtain ⟨sp', answers, hrun, _, _, hbelow, _, _, _, _⟩ :=
+        PropsGen.C03.lookup_history spec _ _ _ hok.below (s4.g.assets.map (gname s4.g)) (fun t _ => hac t)
+      have hg0 : GInv s4 s4 [] :=
+        ⟨rfl, rfl, rfl, by rw [a4.frame.attack_steps, a4.frame.steps]; rfl, by rw [a4.frame.attack_steps]; rfl,
+          fun r _ => a4.frame.asteps r, fun p hp => by cases hp⟩
+      obtain ⟨s5', hrun5, hsp, _, _⟩ := runSteps_spec (s0 := s4) (gname s4.g) s4.g.assets s4 [] sp' answers
+        (fun a ha => TieLangGraph.repG_name_eq a4.repG ha) (by rw [a4.frame.spec_eq]; exact hrun) hg0
+        a4.repG.refs_nodup (fun a _ hm => by cases hm)
+      have heq : s5 = s5' := by
+        have e5' := e5
+        rw [phaseSteps_eq, hrun5] at e5'
+        injection e5' with e5'
+        exact e5'.symm
+      subst heq
+      have e5f : firstFive (Py.LType.TH.init spec R) = .ok s5 := by
+        unfold firstFive
+        rw [e2]
+        show (phaseAssocs s2 >>= phaseSteps) = _
+        rw [e4]
+        exact e5
+      rw [e5f] at hr
+      have hF := phaseLinks_frame (show phaseLinks s5 = .ok s6 from hr)
+      have hspec6 : s6.spec = sp' := by rw [hF.spec, hsp]
+      have hL : langOf s6 = absLang spec := by
+        show absLang s6.spec = _
+        rw [hF.spec]; exact a5.spec_lang
+      refine ⟨?_, ?_, ?_, ⟨?_, ?_, ?_⟩⟩
+      · rw [hL, hF.g]; exact a5.repG
+      · rw [hL]; exact hac
+      · rw [hspec6]; exact ⟨_, _, _, hbelow⟩
+      · rw [hF.spec]; exact a5.spec_lists_wf
+      · rw [hspec6]; exact reqAll_runLookups _ spec hreq (sp', answers) hrun
+      · rw [hF.spec]; exact a5.spec_vars_wf
+
+/-- … in particular for the heap loaded from any language `L` (`runBuild L R` of the `langtype` domain) -/
+theorem langOK_of_runBuild (L : Lang) (R : Nat) (hL : LoadOK L) (hnd : (L.assets.map (·.name)).Nodup)
+    (hac : LG.Acyclic L) (s6 : Py.LType.TH) (hr : Py.LType.runBuild L R = .ok s6) : LangOK s6 :=
+  langOK_of_build (loadPy L) R (specOK_loadPy L hL hnd) (reqAll_loadPy L)
+    (by rw [absLang_loadPy L hL]; exact hac) s6 hr
+
+/-- non-vacuity of `langOK_of_runBuild`: on the demo language `opsL` (`Leaf extends Base`, a variable, `+>`
+inheritance) the generated `_generate_graph` returns, and the heap it returns satisfies `LangOK` -/
+theorem langOK_built_opsL : ∃ s6, Py.LType.runBuild opsL 1000 = .ok s6 ∧ LangOK s6 := by
+  have hret : (match Py.LType.runBuild opsL 1000 with | .ok _ => true | .error _ => false) = true := by decide
+  cases hr : Py.LType.runBuild opsL 1000 with
+  | error e => rw [hr] at hret; cases hret
+  | ok s6 =>
+    exact ⟨s6, rfl, langOK_of_runBuild opsL 1000 (by decide) (by decide) (LG.acyclic_of_check _ (by decide)) s6 hr⟩
+
+/-- **`LanguageGraph(spec)` of the wrapper prelude** (`newLanguageGraph`, convention W3): whenever it returns, the
+language graph satisfies `LangOK` (`ReqAll ExprWF spec` is `SpecWF.requires`) -/
+theorem langOK_newLanguageGraph (w : WEnv) (spec : LS) (hok : SpecOK spec) (hreq : ReqAll ExprWF spec)
+    (hac : LG.Acyclic (absLang spec)) (lg : Py.LType.TH) (h : newLanguageGraph w spec = .ok lg) : LangOK lg := by
+  unfold newLanguageGraph at h
+  cases hr : Py.GenLangType.lg__generate_graph (Py.LType.TH.init spec w.recLimit) with
+  | error e => rw [hr] at h; cases h
+  | ok s6 =>
+    rw [hr] at h
+    injection h with h
+    subst h
+    exact langOK_of_build spec w.recLimit hok hreq hac s6 hr
 
 end MalVerif.PyW.Tie
